@@ -1,0 +1,26 @@
+//go:build verif
+
+package commonmark
+
+// Proof harnesses for the deductive verifier under /verif (govc).  These
+// functions are compiled only with the build tag "verif", are never called,
+// and exist so that a property relating several calls of real functions can be
+// stated as the postcondition of real Go code (contracts in contracts_verif.go).
+
+// verifBucketLemma states what makes the openersBottom cache of
+// processEmphasis sound: whether an opener matches a closer depends on the
+// closer only through its openersBottomIndex.  c1 and c2 range over the
+// elements the closer loop can select ('*' or '_' with the closer flag).
+func verifBucketLemma(o, c1, c2 delimiterStackElement) bool {
+	if !verifIsCloser(c1) || !verifIsCloser(c2) {
+		return true
+	}
+	if c1.openersBottomIndex() != c2.openersBottomIndex() {
+		return true
+	}
+	return isEmphasisDelimiterMatch(o, c1) == isEmphasisDelimiterMatch(o, c2)
+}
+
+func verifIsCloser(c delimiterStackElement) bool {
+	return (c.typ == inlineDelimiterStar || c.typ == inlineDelimiterUnderscore) && c.flags&closerFlag != 0
+}
